@@ -137,6 +137,8 @@ impl OpenEventIndex {
     ) -> Result<(Mphf<Uuid>, u64), EventIndexError> {
         #[cfg(feature = "verif")]
         seglog::verif::point("flush:start", 0, seglog::verif::fd_of(file));
+        #[cfg(feature = "verif")]
+        let _verif_done = seglog::verif::OnDrop("flush:done", 0, seglog::verif::fd_of(file));
         // Collect all keys from the index.
         let keys: Vec<Uuid> = index.keys().cloned().collect();
         let n = keys.len() as u64;
